@@ -477,6 +477,23 @@ def saseCompare (md : Mode) (l r : Value) : Option Ordering :=
 /-- sase.rs `compare_values` for `Lt/Le/Gt/Ge` -/
 def saseCmp (md : Mode) (op : CmpOp) (l r : Value) : Bool := op.holds (saseCompare md l r)
 
+/-! ### the property's oracle and the evaluation contexts (C08) -/
+
+/-- the value an `i64` denotes -/
+def intExt (a : Int64) : Ext := .fin ⟨a.toInt, 0⟩
+
+/-- the number a numeric operand denotes (none for NaN and for non-numbers) -/
+def numExt : Value → Option Ext
+  | .int a => some (intExt a)
+  | .float f => f.ext
+  | _ => none
+
+/-- the mathematical truth of `x op y` -/
+def mathCmp (op : CmpOp) (x y : Ext) : Bool := op.holds (some (Ext.cmp x y))
+
+def CmpOp.toBinOp : CmpOp → BinOp
+  | .lt => .lt | .le => .le | .gt => .gt | .ge => .ge
+
 /-! ### binary operators -/
 
 def toCmpOp : BinOp → Option CmpOp
@@ -590,6 +607,25 @@ def unop (md : Mode) (op : UnOp) (v : Value) : Res :=
   | .neg, .float f => .val (.float f.neg)
   | .not, .bool b => .val (.bool (!b))
   | _, _ => .none
+
+/-- where a comparison is evaluated: `.where`/`.having`/`.emit` (`eval_expr_with_functions`),
+`.pattern` lambdas (`eval_binary_op`), sequence-step filters (sase.rs `compare_values`) -/
+inductive Ctx where
+  | expr | pattern | sase
+  deriving DecidableEq, Repr
+
+/-- the truth value a comparison of two values produces in a context (none: no value) -/
+def evalCmp (fo : FOps) (md : Mode) (ctx : Ctx) (op : CmpOp) (l r : Value) : Option Bool :=
+  match ctx with
+  | .expr =>
+    match binop fo md op.toBinOp l r with
+    | .val (.bool b) => some b
+    | _ => none
+  | .pattern =>
+    match patternBinop md op.toBinOp l r with
+    | .val (.bool b) => some b
+    | _ => none
+  | .sase => some (saseCmp md op l r)
 
 /-! ### indexing and slicing -/
 
